@@ -20,6 +20,11 @@ package witness
 //@   call torchwood.NewCosignatureSigner requires [C14,C16] only-configured-name-key-pairs: (c_name == config.Name && (c_key == iface(config.KeyEd25519) || c_key == iface(config.KeyMLDSA44))) || (c_name == config.MirrorName && c_key == iface(config.KeyMirror))
 //@   returns [C14,C16] signers-in-their-roles: ret1 == nil ==> (ret0 != nil && isCosigSigner(ret0.s1, config.Name, iface(config.KeyEd25519)) && isCosigSigner(ret0.s2, config.Name, iface(config.KeyMLDSA44)) && (config.MirrorName != "" ==> isCosigSigner(ret0.sm, config.MirrorName, iface(config.KeyMirror))) && (config.MirrorName == "" ==> ret0.sm == nil))
 
+// Log-list parsing: finalising an entry always clears both its key and its origin line, on every path (also when
+// the entry is skipped), so that no entry can inherit the origin of another one.
+//@ func witness.parseLogList$1 props C14 C15 C16
+//@   returns [C14] every-finalised-entry-clears-its-key-and-origin: old(vkey) != "" ==> (vkey == "" && origin == "")
+
 // The verifier list a submitted checkpoint is opened with is built, per request, from the configured keys of exactly
 // the origin named in the request (no list shared between logs).
 //@ func witness.(*Witness).verifiersForOrigin props C14 C15 C16
